@@ -75,10 +75,41 @@ def prefixMatchParts : List Str → List Str → Bool
 
 def prefixMatch (path pattern : CgPath) : Bool := prefixMatchParts path.parts pattern.parts
 
-/-! ## `fnmatch(3)` restricted to `*`, `?`, literal characters, with the
-leading-period rule (`glob` passes `FNM_PERIOD`).  Bracket expressions, braces
-and backslash escapes are outside the model (generated only in the malformed
-stream and compared for outcome class). -/
+/-! ## `fnmatch(3)`: `*`, `?`, bracket expressions (`[abc]`, `[a-c]`, `[!a]` / `[^a]`, a leading `]` is literal, an
+unterminated `[` is literal), backslash escapes and literal characters, with the leading-period rule (`glob` passes
+`FNM_PERIOD`).  Character classes (`[:alpha:]`), collating symbols and brace alternatives (`GLOB_BRACE`, expanded by glob
+before matching) are outside the model (generated only in the malformed stream and compared for outcome class). -/
+
+def firstClose : Str → Option Nat
+  | [] => none
+  | c :: cs => if c == ']' then some 0 else (firstClose cs).map (· + 1)
+
+/-- position, in the text after `[`, of the `]` that closes the bracket expression -/
+def closeIdx (ps : Str) : Option Nat :=
+  let start := match ps with
+    | '!' :: _ => 1
+    | '^' :: _ => 1
+    | _ => 0
+  let skip := match ps.drop start with
+    | ']' :: _ => 1          -- a `]` in first position is an ordinary member
+    | _ => 0
+  match firstClose (ps.drop (start + skip)) with
+  | some k => some (start + skip + k)
+  | none => none
+
+/-- the members of a bracket expression as closed ranges -/
+def classItems : Str → List (Char × Char)
+  | a :: '-' :: b :: rest => (a, b) :: classItems rest
+  | a :: rest => (a, a) :: classItems rest
+  | [] => []
+
+/-- does `c` match the bracket expression whose text (between `[` and the closing `]`) is `body` -/
+def classMatch (body : Str) (c : Char) : Bool :=
+  let (neg, items) := match body with
+    | '!' :: r => (true, classItems r)
+    | '^' :: r => (true, classItems r)
+    | r => (false, classItems r)
+  (items.any fun (lo, hi) => decide (lo ≤ c) && decide (c ≤ hi)) != neg
 
 def fnm : Str → Str → Bool
   | [], [] => true
@@ -86,17 +117,26 @@ def fnm : Str → Str → Bool
   | '*' :: ps, [] => fnm ps []
   | '*' :: ps, c :: cs => fnm ps (c :: cs) || fnm ('*' :: ps) cs
   | _ :: _, [] => false
+  | '[' :: ps, c :: cs =>
+    match closeIdx ps with
+    | some n => classMatch (ps.take n) c && fnm (ps.drop (n + 1)) cs
+    | none => c == '[' && fnm ps cs
+  | '\\' :: p :: ps, c :: cs => p == c && fnm ps cs
   | p :: ps, c :: cs => (p == '?' || p == c) && fnm ps cs
 termination_by p s => p.length + s.length
+decreasing_by
+  all_goals simp_wf
+  all_goals (try simp only [List.length_drop]) <;> omega
 
 /-- `fnmatch(pat, name, FNM_PERIOD)` -/
 def fnmatch (pat name : Str) : Bool :=
   match name, pat with
   | '.' :: _, '.' :: _ => fnm pat name
+  | '.' :: _, '\\' :: '.' :: _ => fnm pat name      -- an escaped period is an explicit period
   | '.' :: _, _ => false
   | _, _ => fnm pat name
 
-def hasMeta (pat : Str) : Bool := pat.any (fun c => c == '*' || c == '?')
+def hasMeta (pat : Str) : Bool := pat.any (fun c => c == '*' || c == '?' || c == '[' || c == '\\')
 
 /-! ## A directory tree and the glob walk
 
